@@ -31,6 +31,7 @@ const XPROC: usize = 6;
 const HOLDER_PID: usize = 7;
 const HASH_CHECKS: usize = 8;
 const ADMIN: usize = 9;
+const MIGRATE: usize = 10;
 
 impl Shared {
 	fn open(p: &Path) -> Shared {
@@ -105,7 +106,16 @@ fn opener_loop(dir: &Path, sh: &Shared, loops: u64, seed: u64, who: &str) -> Vec
 							o.salt = Some(m.salt);
 						}
 					}
-					let (what, res): (&str, parity_db::Result<()>) = match r.below(5) {
+					let migsrc = dir.parent().map(|p| p.join("migsrc"));
+					let (what, res): (&str, parity_db::Result<()>) = match r.below(6) {
+						5 if migsrc.as_ref().map_or(false, |p| p.join("metadata").exists()) => {
+							// a migration INTO the live directory (first column re-compressed, the
+							// others unchanged and therefore copied as files): refused, nothing copied
+							let mut to = cfg().options(dir);
+							to.columns[0].compression = CompressionType::Lz4;
+							sh.at(MIGRATE).fetch_add(1, Ordering::SeqCst);
+							("migrate(into the live directory)", parity_db::migrate(migsrc.as_ref().unwrap(), to, false, &[]))
+						},
 						0 => ("clear_column", parity_db::clear_column(dir, r.below(3) as u8)),
 						1 => ("reset_column", Db::reset_column(&mut o, r.below(3) as u8, None)),
 						2 => ("add_column", Db::add_column(&mut o, col(false, false, false, false, CompressionType::NoCompression))),
@@ -249,6 +259,17 @@ fn case(ctx: &Ctx, rep: &mut Report, case_seed: u64, variant: u64, replay_pendin
 		} else {
 			drop(db);
 		}
+	}
+	// ---- a second database of the same layout: source of migrations attempted INTO the live directory
+	{
+		let mut c = cfg();
+		c.background = false;
+		let src = work.path.join("migsrc");
+		let db = Db::open_or_create(&c.options(&src)).expect("create migration source");
+		for i in 0..30u32 {
+			db.commit_changes(vec![(0u8, Operation::Set(format!("m{}", i).into_bytes(), vec![0xEE; 60])), (1u8, Operation::Set(format!("mb{}", i).into_bytes(), vec![0xDD; 25]))]).unwrap();
+		}
+		drop(db);
 	}
 	// ---- creation race and spinning retries (own directories, before the long loops)
 	{
@@ -486,6 +507,7 @@ fn case(ctx: &Ctx, rep: &mut Report, case_seed: u64, variant: u64, replay_pendin
 	rep.count("race_with_recovery", sh.at(RACE).load(Ordering::SeqCst));
 	rep.count("idle_hash_checks", sh.at(HASH_CHECKS).load(Ordering::SeqCst));
 	rep.count("admin_calls_against_live_handle", sh.at(ADMIN).load(Ordering::SeqCst));
+	rep.count("migrations_into_live_directory", sh.at(MIGRATE).load(Ordering::SeqCst));
 	rep.evaluations += sh.at(ADMIN).load(Ordering::SeqCst);
 	rep.evaluations += ok + locked + 2;
 	rep.seen(format!("replay{}|ok{}|locked{}|race{}", replay_pending as u8, (ok > 0) as u8, (locked > 0) as u8, (sh.at(RACE).load(Ordering::SeqCst) > 0) as u8));
